@@ -7,3 +7,66 @@ package router
 //@ property C11 C12
 //@ type router
 //@   guarded_by mu: registry
+//@   lockinv mu: recv.registry != nil && (forall k string :: has(recv.registry, k) ==> !isnil(recv.registry[k]))
+//@
+//@ // ---- the registry behaves as a map; callbacks report exactly the transitions and run without the lock (C12) ----
+//@ property C12
+//@ callback router.factory: modifies nothing
+//@ callback router.fallback: modifies nothing
+//@ callback router.onChange: modifies nothing
+//@ callback invoke.f: modifies nothing
+//@ pure func wfRouter(r) = r != nil && r.registry != nil && (forall k string :: has(r.registry, k) ==> !isnil(r.registry[k]))
+//@ pure func othersKept(r, name) = forall k string :: k != name ==> has(r.registry, k) == old(has(r.registry, k)) && r.registry[k] == old(r.registry[k])
+//@
+//@ func (*router).Add(name, client) (prev)
+//@   requires wfRouter(recv) && !held(recv.mu) && !isnil(client)
+//@   letold n0 := cbcalls()
+//@   ensures [returns-previous] (old(has(recv.registry, name)) ==> prev == old(recv.registry[name])) && (!old(has(recv.registry, name)) ==> isnil(prev))
+//@   ensures [stored] has(recv.registry, name) && recv.registry[name] == client && othersKept(recv, name)
+//@   ensures [one-callback] (recv.onChange != nil ==> cbcalls() == n0 + 1 && cbfn(n0) == recv.onChange && !cbheld(n0, recv.mu)) && (recv.onChange == nil ==> cbcalls() == n0)
+//@   ensures [unlocked] !held(recv.mu)
+//@   ensures [wf] wfRouter(recv)
+//@
+//@ func (*router).Remove(name) (prev)
+//@   requires wfRouter(recv) && !held(recv.mu)
+//@   letold n0 := cbcalls()
+//@   ensures [returns-removed] (old(has(recv.registry, name)) ==> prev == old(recv.registry[name])) && (!old(has(recv.registry, name)) ==> isnil(prev))
+//@   ensures [removed] !has(recv.registry, name) && othersKept(recv, name)
+//@   ensures [callback-iff-removed] (old(has(recv.registry, name)) && recv.onChange != nil ==> cbcalls() == n0 + 1 && cbfn(n0) == recv.onChange && !cbheld(n0, recv.mu)) &&
+//@   |   (!old(has(recv.registry, name)) || recv.onChange == nil ==> cbcalls() == n0)
+//@   ensures [unlocked] !held(recv.mu)
+//@   ensures [wf] wfRouter(recv)
+//@
+//@ func (*router).Has(name) (res)
+//@   requires wfRouter(recv) && !held(recv.mu)
+//@   ensures [agrees] res == has(recv.registry, name)
+//@   ensures [read-only] othersKept(recv, name) && has(recv.registry, name) == old(has(recv.registry, name)) && cbcalls() == old(cbcalls())
+//@   ensures [unlocked] !held(recv.mu)
+//@   ensures [wf] wfRouter(recv)
+//@
+//@ func invoke(name, f) (child, found, err)
+//@   ensures [nil-factory] f == nil ==> isnil(child) && !found && err == nil && cbcalls() == old(cbcalls())
+//@   ensures [asked-once] f != nil ==> cbcalls() == old(cbcalls()) + 1 && cbfn(old(cbcalls())) == f
+//@   ensures [locks-as-called] f != nil ==> (forall m *sync.RWMutex :: cbheld(old(cbcalls()), m) == held(m))
+//@   ensures [found] found ==> !isnil(child) && err == nil
+//@   modifies nothing
+//@
+//@ func (*router).Get(name) (child, err)
+//@   mode BOTH
+//@   requires wfRouter(recv) && !held(recv.mu)
+//@   letold n0 := cbcalls()
+//@   // a registered client is returned as it is, and nobody else is asked
+//@   ensures [registered] old(has(recv.registry, name)) ==> err == nil && child == old(recv.registry[name]) && cbcalls() == n0 && othersKept(recv, name) && has(recv.registry, name)
+//@   // otherwise the fallback is asked first, then the factory; a factory client is remembered, a fallback client is not
+//@   ensures [fallback-first] !old(has(recv.registry, name)) && recv.fallback != nil ==> cbcalls() >= n0 + 1 && cbfn(n0) == recv.fallback && !cbheld(n0, recv.mu)
+//@   ensures [not-found] err != nil ==> isnil(child) && !has(recv.registry, name) && othersKept(recv, name)
+//@   ensures [found] err == nil ==> !isnil(child)
+//@   ensures [remembered] err == nil && has(recv.registry, name) ==> child == recv.registry[name]
+//@   ensures [only-this-name] othersKept(recv, name)
+//@   ensures [unlocked] !held(recv.mu)
+//@   ensures [wf] wfRouter(recv)
+//@   // C12 (interference mode): concurrent first Gets commit a single factory client: the insert happens only while the
+//@   // name is still absent under the write lock, and the call returns whatever the registry holds after that
+//@   onmapstore router.registry [INT] [single-commit]: heldW(r.mu) && key == name && !has(r.registry, key)
+//@   ensures [INT] [returns-committed@C12] err == nil && has(recv.registry, name) ==> child == recv.registry[name]
+//@   ensures [INT] [unlocked@C12] !held(recv.mu)
